@@ -949,6 +949,7 @@ def shards_delta(shards, other_shards):
     other_shards_iter = iter(other_shards)
     other_num_rows = other_cviews = None
     done = other_done = 0
+    cols = sum(cv[2] for cv in shards[0][1]) if shards else 0
     for num_rows, cviews in shards:
         if other_num_rows is None:
             other_num_rows, other_cviews = next(other_shards_iter, (None, None))
@@ -959,8 +960,13 @@ def shards_delta(shards, other_shards):
             yield (num_rows, cviews)
             done += num_rows
             continue
-        # top-aligned shards, compare each cview
-        yield (num_rows, shard_cviews_delta(cviews, other_cviews))
+        # top-aligned shards, compare each cview.  cviews are matched by the columns
+        # they add up to, which is only their real position when neither shard has
+        # columns occupied by a canvas continuing from a shard above
+        if sum(cv[2] for cv in cviews) == cols == sum(cv[2] for cv in other_cviews):
+            yield (num_rows, shard_cviews_delta(cviews, other_cviews))
+        else:
+            yield (num_rows, cviews)
         other_done += other_num_rows
         other_num_rows = None
         done += num_rows
